@@ -313,6 +313,9 @@ def eds_model(rng, node_id=None, n_objects=14, dcf=False, index_ranges=((0x1002,
     m.add(ObjM("record", 0x1018, "Identity object", ident))
     used.update(["Device type", "Error register", "Identity object"])
     indices = set()
+    # the first and last index of every area (the EDS object lists are cut at these borders)
+    borders = [i for lo, hi in index_ranges for i in (lo, hi)]
+    indices.update(rng.sample(borders, min(len(borders), rng.randint(1, 3))))
     while len(indices) < n_objects:
         lo, hi = rng.choice(index_ranges)
         i = rng.randint(lo, hi)
